@@ -130,7 +130,14 @@ def body(ctx, case):
 
     route = _Route()
 
+    def identity(tag, res):
+        chi = float(np.sum(np.abs(np.asarray(res.residuals)) ** 2))
+        ctx.check(abs(res.pseudo_chisqr - chi) <= 1e-9 * max(chi, 1e-300), "chisqr-is-sum-of-squared-residuals", case, f"{tag}: pseudo_chisqr {res.pseudo_chisqr!r} vs sum |residuals|^2 {chi!r}")
+
+    identity("baseline", base)
+
     def compare(tag, res, sZ, sf):
+        identity(tag, res)
         r = np.asarray(res.residuals)
         dev = float(np.max(np.abs(r - r0)))
         ctx.observe(f"residual-change/{tag}", dev / max(scale, 1e-300))
